@@ -149,14 +149,10 @@ func (o *c07Oracle) after(ch *chain, ci *callInfo) *Violation {
 		}
 		mv.stake.Sub(mv.stake, amt)
 		burned.Add(burned, amt)
-		force := mv.stake.Cmp(minStake) < 0
-		if force && amt.Sign() == 0 {
-			// the stake was below a raised minimum already and this slash removed nothing: the statement ("falls below")
-			// does not say whether that forces the unstake, so either outcome is accepted
-			got, ok := after.Vals[addr]
-			force = ok && got.Status == sdk.Unstaked
-		}
-		if force {
+		// "falls below the minimum": a slash that removed something and left less than the minimum. A zero-amount
+		// slash removes nothing, so nothing falls (posmint's slash() returns before the check in that case) - this
+		// matters only after governance raised the minimum above an existing stake.
+		if amt.Sign() > 0 && mv.stake.Cmp(minStake) < 0 {
 			// below the minimum: force-unstaked with the remainder burned
 			burned.Add(burned, mv.stake)
 			mv.stake = new(big.Int)
